@@ -451,6 +451,15 @@ def skeletons(tier):
         out.append(("base/rel%s" % lead, dict(groups=groups, layout=_default_layout(groups), base="http://b.c/d/")))
     groups = [(PN1, [(PN1, [_lit([F], "dt_rel")]), (PN1, [_lit([], "dt_rel", dt_k=2)])])]
     out.append(("base/relative-datatype", dict(groups=groups, layout=_default_layout(groups), base="http://b.c/types/")))
+    # absolute https IRIs next to a base, and an https base
+    groups = [({"t": "abs", "k": 1, "base": "https://x.y/"}, [({"t": "abs", "k": 1}, [{"t": "rel", "k": 1}, {"t": "abs", "k": 1, "base": "https://x.y/o"}])])]
+    out.append(("base/https-abs", dict(groups=groups, layout=_default_layout(groups), base="http://b.c/d/")))
+    groups = [({"t": "rel", "k": 1}, [(PN1, [{"t": "rel", "k": 2}]), ({"t": "abs", "k": 1, "base": "https://x.y/"}, [{"t": "abs", "k": 1}])])]
+    out.append(("base/https-base", dict(groups=groups, layout=_default_layout(groups), base="https://b.c/d/")))
+    groups = [({"t": "abs", "k": 1, "base": "urn:x:"}, [(PN1, [_lit([F], "dt_iri", dt_base="urn:t:")])])]
+    out.append(("base/other-scheme-datatype", dict(groups=groups, layout=_default_layout(groups), base="http://b.c/d/")))
+    groups = [({"t": "abs", "k": 1, "base": "urn:x:"}, [(PN1, [{"t": "abs", "k": 1, "base": "ftp://x.y/"}])])]
+    out.append(("base/other-schemes", dict(groups=groups, layout=_default_layout(groups), base="http://b.c/d/")))
     groups = [({"t": "abs", "k": 1}, [({"t": "rdftype"}, [{"t": "rel", "k": 1}])])]
     out.append(("base/abs+rdftype", dict(groups=groups, layout=_default_layout(groups), base="http://b.c/", declare_rdf=True)))
     return out
